@@ -86,12 +86,19 @@ func toRef(m Message) (refcodec.Msg, bool) {
 	return refcodec.Msg{}, false
 }
 
+// peersKey renders a peer list in wire order: the compact format carries IPv4
+// and IPv6 peers in two separate strings, so only the order within a family is
+// representable.
 func peersKey(ps []refcodec.Peer) string {
-	var l []string
+	var l4, l6 []string
 	for _, p := range ps {
-		l = append(l, fmt.Sprintf("%v/%d", p.Addr, p.Flags))
+		if p.Addr.Addr().Is4() {
+			l4 = append(l4, fmt.Sprintf("%v/%d", p.Addr, p.Flags))
+		} else {
+			l6 = append(l6, fmt.Sprintf("%v/%d", p.Addr, p.Flags))
+		}
 	}
-	return fmt.Sprint(l)
+	return fmt.Sprint(l4, l6)
 }
 
 // sameMsg compares two reference messages on the fields their kind defines
